@@ -888,3 +888,73 @@ def rule_k(ctx: Ctx) -> None:
                          f"a non-numeric text leaks ValueError instead of a sqlglot error")
     ctx.count("conversion_sites", n)
     ctx.min_instances("conversion_sites", n, 8)
+
+
+# ------------------------------------------------------------------------------------------ C05.l
+# Regular expressions assembled from text of the SQL being processed.
+
+RE_FUNCS = {"compile", "sub", "subn", "match", "search", "fullmatch", "split", "findall", "finditer"}
+
+
+def _unescaped_pattern_parts(pat: ast.AST) -> list[ast.AST]:
+    """non-constant pieces interpolated into a pattern without re.escape"""
+    out: list[ast.AST] = []
+    if isinstance(pat, ast.JoinedStr):
+        for v in pat.values:
+            if isinstance(v, ast.FormattedValue):
+                e = v.value
+                if isinstance(e, ast.Call) and call_name(e) in ("re.escape", "escape"):
+                    continue
+                if isinstance(e, ast.Constant):
+                    continue
+                out.append(e)
+    elif isinstance(pat, ast.BinOp) and isinstance(pat.op, (ast.Add, ast.Mod)):
+        for side in (pat.left, pat.right):
+            if isinstance(side, ast.Constant):
+                continue
+            if isinstance(side, ast.Call) and call_name(side) in ("re.escape", "escape"):
+                continue
+            if isinstance(side, (ast.JoinedStr, ast.BinOp)):
+                out.extend(_unescaped_pattern_parts(side))
+            else:
+                out.append(side)
+    return out
+
+
+def rule_l(ctx: Ctx) -> None:
+    ctx.rule(
+        "C05.l",
+        "regular expressions built at run time escape what they interpolate: in every re.<function>(pattern, ...) of the tokenizer, parser, generator and dialect "
+        "modules whose pattern is an f-string / concatenation, each non-constant piece is wrapped in re.escape(...) or is a module-/class-level constant — "
+        "otherwise text of the SQL being processed can make the pattern invalid (re.error leaks) or match something else",
+    )
+    probe = ast.parse('import re\np = re.compile(rf"{esc.name}(\\d+)")\n')
+    pc = [c for c in ast.walk(probe) if isinstance(c, ast.Call) and call_name(c) == "re.compile"]
+    ctx.require(len(pc) == 1 and len(_unescaped_pattern_parts(pc[0].args[0])) == 1, "internal: C05.l matcher no longer recognises its positive control")
+    n = n_dyn = 0
+    for m in ctx.repo.modules.values():
+        if not (m.name in K_SCOPE_EXACT or m.name.startswith(K_SCOPE_PREFIX) or m.name in ("sqlglot.helper", "sqlglot.expressions.core")):
+            continue
+        consts = {t_.id for st in m.tree.body if isinstance(st, (ast.Assign, ast.AnnAssign)) for t_ in (st.targets if isinstance(st, ast.Assign) else [st.target]) if isinstance(t_, ast.Name)}
+        for c in m.of_type(ast.Call):
+            cn = call_name(c) or ""
+            if not (cn.startswith("re.") and cn[3:] in RE_FUNCS and c.args):
+                continue
+            n += 1
+            parts = [p for p in _unescaped_pattern_parts(c.args[0]) if not (isinstance(p, ast.Name) and (p.id in consts or p.id.isupper()))
+                     and not (isinstance(p, ast.Attribute) and p.attr.isupper())]
+            if not isinstance(c.args[0], (ast.JoinedStr, ast.BinOp)):
+                continue
+            n_dyn += 1
+            f = m.enclosing_func(c)
+            where = f.key if f else f"{m.name}:<module/class body>"
+            inst = f"{where}|{norm(c, 80)}"
+            if not parts:
+                ctx.ok(inst, {"pattern": norm(c.args[0], 60), "in": where, "interpolated": "constants / re.escape only"})
+            else:
+                ctx.fail(m, c, where, norm(c, 80),
+                         f"the pattern interpolates `{norm(parts[0], 40)}` without re.escape: text taken from the SQL being processed is read as regular-expression syntax "
+                         f"(re.error leaks for an unbalanced metacharacter, and metacharacters match unintended text)")
+    ctx.count("re_calls_scanned", n)
+    ctx.count("patterns_built_at_run_time", n_dyn)
+    ctx.min_instances("re_calls_scanned", n, 10)
